@@ -6,7 +6,7 @@
      marks_* x ..    : no cached Infeasible mark sits on a node whose closed path polytope contains x
    Nothing is assumed about Error / Unbounded / Optimal answers or about the mirror heuristic.  For an oracle that
    is sound only up to thin regions the conclusions hold for every x outside the polytopes it declared infeasible. *)
-From AT Require Import Num Vec Aff PTree Cells Abs Cache Elim ElimEval ElimCache ElimEff CPrune CPruneEval Ops ElimExample SkipOnlyIf.
+From AT Require Import Num Vec Aff PTree Cells Abs Cache Elim ElimEval ElimCache ElimEff CPrune CPruneEval Ops ElimExample SkipOnlyIf Farkas FM Equiv EquivThin.
 
 (* infeasible_elimination: defined exactly where it was defined, with the same value *)
 Theorem C03_elim_preserves : forall o tol t x, osound o x -> marks_kids x [] t ->
@@ -60,6 +60,14 @@ Theorem C03_skip_only_if_compose : forall o tol s tf x p l0 l1 top st i q k, oso
   ~ in_rows (q ++ [row0 (s_dec s p tf)]) x \/ ~ in_rows (q ++ [row1 (s_dec s p tf)]) x.
 Proof. exact graftp_skip_only_if. Qed.
 
+(* the deciding comparison the runner makes on the implementation's trees is itself verified: a verdict Equal means the
+   tree after agrees with the tree before at EVERY input that lies in no certified-thin cell of the tree before (thin =
+   nothing survives tightening each row by tau * |row|_1); differences inside one thin cell cannot hide others *)
+Theorem C03_comparison_sound : forall n tau t_ref t, tree_equiv_skip (thin_skip n tau) n [] t_ref t = Equal ->
+  forall x, length x = n ->
+    (forall c, thin n tau (closed_rows c) -> ~ in_rows (closed_rows c) x) -> eval t_ref x = eval t x.
+Proof. exact tree_equiv_mod_thin_sound. Qed.
+
 (* non-vacuity: a concrete tree and oracle meeting every hypothesis for every x, on which elimination removes an
    infeasible terminal and replaces a decision by its remaining branch *)
 Example C03_nonvacuous :
@@ -78,4 +86,5 @@ Print Assumptions C03_infeasible_only_from_oracle.
 Print Assumptions C03_edge_dropped_only_if_infeasible.
 Print Assumptions C03_skip_only_if_elim.
 Print Assumptions C03_skip_only_if_compose.
+Print Assumptions C03_comparison_sound.
 Print Assumptions C03_nonvacuous.
